@@ -48,6 +48,7 @@ type mutexState struct {
 	locked  bool
 	owner   int
 	readers int
+	rhold   map[int]int // read locks held per goroutine (to spot recursive read locking)
 	vc      []int
 }
 type wgState struct {
